@@ -110,6 +110,8 @@ impl StateEntry {
             .duration_since(UNIX_EPOCH)
             .unwrap()
             .as_millis() as u64;
+        #[cfg(rre_verif)]
+        let now = crate::verif_hooks::clock_ms().unwrap_or(now);
 
         Self {
             value,
@@ -125,6 +127,8 @@ impl StateEntry {
                 .duration_since(UNIX_EPOCH)
                 .unwrap()
                 .as_millis() as u64;
+            #[cfg(rre_verif)]
+            let now = crate::verif_hooks::clock_ms().unwrap_or(now);
 
             let ttl_ms = ttl.as_millis() as u64;
             now > self.created_at + ttl_ms
@@ -139,6 +143,10 @@ impl StateEntry {
             .duration_since(UNIX_EPOCH)
             .unwrap()
             .as_millis() as u64;
+        #[cfg(rre_verif)]
+        if let Some(t) = crate::verif_hooks::clock_ms() {
+            self.updated_at = t;
+        }
     }
 }
 
@@ -488,6 +496,11 @@ impl StateStore {
                 .unwrap()
                 .as_millis()
         );
+        #[cfg(rre_verif)]
+        let checkpoint_id = match crate::verif_hooks::clock_ms() {
+            Some(t) => format!("checkpoint_{}", t),
+            None => checkpoint_id,
+        };
 
         let state = self.state.read().unwrap();
         let snapshot: HashMap<String, Value> = state
@@ -528,6 +541,8 @@ impl StateStore {
                     ))
                 })?;
 
+                #[cfg(rre_verif)]
+                crate::verif_hooks::crash_point("checkpoint:after_mkdir");
                 let data_path = checkpoint_path.join("state.json");
                 let json = serde_json::to_string_pretty(&snapshot).map_err(|e| {
                     RuleEngineError::ExecutionError(format!("Failed to serialize state: {}", e))
@@ -540,9 +555,21 @@ impl StateStore {
                     ))
                 })?;
 
+                #[cfg(rre_verif)]
+                crate::verif_hooks::crash_point("checkpoint:after_create");
+                #[cfg(rre_verif)]
+                if let Some(n) = crate::verif_hooks::crash_write_limit("checkpoint:write", json.len())
+                {
+                    let n = n.min(json.len());
+                    let _ = file.write_all(&json.as_bytes()[..n]);
+                    drop(file);
+                    panic!("rre_verif injected crash after {} bytes of checkpoint", n);
+                }
                 file.write_all(json.as_bytes()).map_err(|e| {
                     RuleEngineError::ExecutionError(format!("Failed to write checkpoint: {}", e))
                 })?;
+                #[cfg(rre_verif)]
+                crate::verif_hooks::crash_point("checkpoint:after_write");
 
                 let metadata = CheckpointMetadata {
                     id: checkpoint_id.clone(),
@@ -562,6 +589,8 @@ impl StateStore {
                 if checkpoints.len() > self.config.max_checkpoints {
                     let old_checkpoint = checkpoints.remove(0);
                     let old_path = path.join(&old_checkpoint.id);
+                    #[cfg(rre_verif)]
+                    crate::verif_hooks::crash_point("checkpoint:before_retention_remove");
                     let _ = fs::remove_dir_all(old_path);
                 }
             }
